@@ -3,6 +3,8 @@
 
 mod alpha;
 mod bigint;
+#[path = "../../common/pipeline.rs"]
+mod pipeline;
 mod checks;
 mod obs;
 mod oracle;
@@ -26,6 +28,24 @@ fn main() {
     }
     if args[1] == "replay" {
         std::process::exit(checks::replay(&args[2]));
+    }
+    if args[1] == "C09REAL" {
+        // conformance of the scheduling model with the implementation: the same pipeline on real rayon pools
+        let runs = if args[2] == "thorough" { 10 } else { 3 };
+        let mut lines = vec![];
+        for (i, inp) in pipeline::pipeline_inputs().iter().enumerate() {
+            for threads in [1usize, 2, 3, 4, 8, 16, 64] {
+                let pool = rayon::ThreadPoolBuilder::new().num_threads(threads).build().expect("pool");
+                for run in 0..runs {
+                    let d = pool.install(|| pipeline::run_pipeline(inp));
+                    lines.push(format!("{}\t{}\t{}\t{:016x}", i, threads, run, d.total()));
+                }
+            }
+        }
+        let path = std::env::var("VERIF_C09_REAL_OUT").unwrap_or_else(|_| "/tmp/c09_real.digest".to_string());
+        std::fs::write(&path, lines.join("\n") + "\n").expect("write real-rayon digests");
+        println!("C09REAL: {} runs on real rayon pools -> {}", lines.len(), path);
+        std::process::exit(0);
     }
     let prop = args[1].to_uppercase();
     let tier = args[2].as_str();
